@@ -590,7 +590,8 @@ def run_case(spec):
                     P.append("trial %d: recorded score %r does not belong to its setting (expected %r)" % (
                         j, opt.scores[j], val ** 0.75))
             if got != want:
-                P.append("trial %d (%s pseed=%d): recorded costs %r, its own setting gives %r" % (j, m, ps, got, want))
+                P.append("%strial %d (%s pseed=%d): recorded costs %r, its own setting gives %r" % (
+                    "record-only: " if fails else "", j, m, ps, got, want))
     return obs
 
 
@@ -953,7 +954,9 @@ def judge(ctx, spec, obs, label):
             ctx.count("known:combo-float-factor")
     for p in obs["problems"]:
         ok = False
-        ctx.fail(p, rec)
+        # what is recorded for a trial that FAILED is not part of the property text: such a
+        # difference is a departure from the model only
+        ctx.fail(p, rec, found_input=not p.startswith("record-only: "))
     # (d) never more trials than requested, per search() call
     for s in obs["searches"]:
         if s["nreported"] > spec["max_repeats"] or s["nasks"] > spec["max_repeats"]:
@@ -988,7 +991,7 @@ def judge(ctx, spec, obs, label):
     # (e) failed trials: recorded as inf everywhere, never reported to the library
     for j, s in enumerate(obs["scores"]):
         if s == "inf" and (obs["flops"][j], obs["write"][j], obs["size"][j]) != ("inf", "inf", "inf"):
-            ctx.fail("failed trial %d has finite recorded costs" % j, rec)
+            ctx.fail("record-only: failed trial %d has finite recorded costs" % j, rec, found_input=False)
             ok = False
     for m, p, s in obs["reports"]:
         if s in ("inf", "nan"):
